@@ -16,6 +16,7 @@ optionDec_some optionDec_none vecDec_rt arrLoopI_cells mapLoopI_stmts datatype_s
 PACKAGES = ["dgen"]
 prepare = base.prepare
 RULE = ("ddec <type> <hex>: for every type definition and value of the C08 corpus (same grammar, same presence combinations and boundary values): "
+        "(o) the bytes the implementation's own derived Encode wrote for the value (stream derive-own-encoding -> derive-roundtrip-own-bytes), "
         "(i) the documented encoding (Python reference encoder = implementation's encoding by C08), (ii) re-framings of it: every struct / variant / Vec "
         "container indefinite, every head (integers, lengths, tags, map keys, the enum wrapper) widened by one step / to 8 bytes / mixed, and both, "
         "(iii) top-level mutations: wrong tag and missing tag at struct, enum, variant and field level, a mandatory field left out, an unknown variant index, "
